@@ -143,3 +143,25 @@ mut("c05-splat-dyn-before-null", "C05", "MUST", "hclsyntax/expression.go",
     "\tif sourceVal.IsNull() {\n\t\tif autoUpgrade {", "\tif sourceTy == cty.DynamicPseudoType {\n\t\treturn cty.DynamicVal.WithSameMarks(sourceVal), diags\n\t}\n\tif sourceVal.IsNull() {\n\t\tif autoUpgrade {", "unknown.origin")
 mut("c05-keep-flag-demorgan", "C05", "KEEP", "hclsyntax/expression.go",
     "\t\tif !key.IsKnown() {\n\t\t\tknown = false\n\t\t\tcontinue\n\t\t}\n\n\t\tkeyStr := key.AsString()", "\t\tif key.IsKnown() == false {\n\t\t\tknown = false\n\t\t\tcontinue\n\t\t}\n\n\t\tkeyStr := key.AsString()", "")
+
+# ---- renamed anchors (resolved by signature through hclcheck/anchors.json) ------------------------------
+# mut(id, property, "RENAME", package directory, old identifier, new identifier)
+mut("rename-spaceAfterToken", "C09", "RENAME", "hclwrite", "spaceAfterToken", "wantsSpaceAfter")
+mut("rename-emitToken", "C14", "RENAME", "hclsyntax", "emitToken", "emit")
+mut("rename-scanNumber", "C13", "RENAME", "json", "scanNumber", "scanNumberToken")
+mut("rename-parseBinaryOps", "C01", "RENAME", "hclsyntax", "parseBinaryOps", "parseBinaryOperators")
+mut("rename-nextToken", "C02", "RENAME", "hclsyntax", "nextToken", "advance")
+mut("rename-expandBlocks", "C18", "RENAME", "ext/dynblock", "expandBlocks", "expandAllBlocks")
+mut("rename-clearValue", "C17", "RENAME", "hclsyntax", "clearValue", "forgetValue")
+mut("rename-valueStr", "C19", "RENAME", ".", "valueStr", "describeValue")
+mut("rename-recover", "C01", "RENAME", "hclsyntax", "recoverOver", "skipOver")
+mut("rename-recover-c15", "C15", "RENAME", "hclsyntax", "recoverAfterBodyItem", "skipToNextItem")
+mut("rename-includingNewlines", "C02", "RENAME", "hclsyntax", "includingNewlines", "newlinesSignificant")
+mut("rename-prepareBodyVal", "C08", "RENAME", "hcldec", "prepareBodyVal", "withBodyMarks")
+mut("rename-prepareBodyVal-c06", "C06", "RENAME", "hcldec", "prepareBodyVal", "withBodyMarks")
+mut("rename-parseTraversalStep", "C10", "RENAME", "hclwrite", "parseTraversalStep", "loadTraversalStep")
+mut("rename-escapeQuotedStringLit", "C11", "RENAME", "hclwrite", "escapeQuotedStringLit", "escapeStringLit")
+mut("rename-getType", "C20", "RENAME", "ext/typeexpr", "getType", "typeFromExpr")
+mut("rename-mergedContent", "C04", "RENAME", ".", "mergedContent", "contentOfAll")
+mut("rename-variablesNeeded", "C07", "RENAME", "hcldec", "variablesNeeded", "neededVariables")
+mut("rename-detach", "C12", "RENAME", "hclwrite", "Detach", "Unlink")
